@@ -6,6 +6,7 @@ import (
 
 	"verifharness/internal/fw"
 	"verifharness/internal/gen"
+	"verifharness/internal/model"
 )
 
 // acceptedWorkload: inputs with a high acceptance rate (corpus, light mutants) plus a targeted generator for the
@@ -29,6 +30,24 @@ func acceptedWorkload(c *fw.Ctx, scale int, emit emitFn) {
 		q.Files[p.Root] = gen.Mutate(r, p.RootContent(), 1+r.Intn(2), splice)
 		emit("light-mutant", projectJob(id("lm"), q, false))
 	}
+	// rendered abstract models in random layouts (MACRO/PASTE abstraction of sibling runs incl. whole resources at the top level,
+	// INCLUDE splitting, explicit contexts): accepted by construction, rich in path parameters, tags, headers and schema rules
+	mr := gen.Rng(c.Seed, c.ID, "accepted-models")
+	for i := 0; i < 400*scale; i++ {
+		sz := model.QuickSize
+		if i%3 == 0 {
+			sz = model.FullSize
+		}
+		m := model.Generate(mr, sz)
+		l := model.RandomLayout(gen.Rng(c.Seed, c.ID, "accepted-layout", fmt.Sprint(i)))
+		if i%2 == 0 {
+			l.Macros = true
+		}
+		rd := m.Render(l)
+		emit("model", renderingJob(id("model"), rd))
+	}
+	// the full grid type kind x reference form x place (deterministic)
+	typeUsageMatrix(emit)
 	// targeted generator
 	schemas := []string{
 		`{"id": 1}`, `{"id": "a"}`, `{"id": 1 // {min: 5}` + "\n}", `{"id": "abc" // {minLength: 10}` + "\n}", `{"id": @t}`, `{"id": @undefined}`,
